@@ -298,6 +298,95 @@ def write_fault_job(args):
         shutil.rmtree(wd, ignore_errors=True)
 
 
+def cli_shapes():
+    """Every entry of the command-line table (src/options.c) in every argument shape: flag alone, argument attached, argument as the next
+    word, argument missing as the last word of the command line (the specification then comes from standard input)."""
+    import re as _re
+    src = open("/repo/src/options.c", errors="replace").read()
+    shapes = []
+    vals = {"FILE": "out_x", "PREFIX": "zz", "LANG": "c99", "NUM": "1", "macro": "FOO", "NAME": "Cls", "SIZE": "100", "STRING": "int"}
+    for m in _re.finditer(r'\{\s*"(-[^"]+)"\s*,\s*(OPT_\w+)', src):
+        spec, opt = m.group(1), m.group(2)
+        if opt in ("OPT_HELP", "OPT_VERSION"):
+            shapes.append(([spec.split()[0].split("=")[0].split("[")[0]], "info", spec))
+            continue
+        okk = "any" if opt in ("OPT_SKEL", "OPT_YYCLASS") else "ok"     # a skeleton file that does not exist / yyclass without C++ are refused, with a message
+        mm = _re.match(r"^(--[\w+-]+)=(\w+)$", spec)
+        if mm:                                    # --long=ARG (required)
+            v = vals.get(mm.group(2), "x1")
+            shapes += [([mm.group(1) + "=" + v], okk, spec), ([mm.group(1), v], "ok-or-refused", spec), ([mm.group(1)], "missing", spec), ([mm.group(1) + "="], "any", spec)]
+            continue
+        mm = _re.match(r"^(--[\w+-]+)\[=(\w+)\]$", spec)
+        if mm:                                    # --long[=ARG] (optional)
+            shapes += [([mm.group(1)], "ok", spec), ([mm.group(1) + "=" + vals.get(mm.group(2), "x1")], "ok", spec)]
+            continue
+        mm = _re.match(r"^(-\w) (\w+)$", spec)
+        if mm:                                    # -x ARG (required)
+            v = vals.get(mm.group(2), "x1")
+            shapes += [([mm.group(1), v], okk, spec), ([mm.group(1) + v], okk, spec), ([mm.group(1)], "missing", spec)]
+            continue
+        mm = _re.match(r"^(-\w)(macro)$", spec)
+        if mm:
+            shapes += [([mm.group(1) + "FOO"], "ok", spec), ([mm.group(1) + "FOO=1"], "ok", spec), ([mm.group(1)], "any", spec)]
+            continue
+        mm = _re.match(r"^(-C)\[(\w+)\]$", spec)
+        if mm:
+            shapes += [(["-C"], "ok", spec)] + [(["-C" + c], "any", spec) for c in mm.group(2)] + [(["-Cz"], "refused", spec)]
+            continue
+        shapes.append(([spec], "any", spec))
+    shapes += [(["--no-such-option"], "refused", "unknown"), (["-Z"], "refused", "unknown"), (["--"], "ok", "--"), (["--re"], "refused", "ambiguous prefix"),
+               (["--outf=out_x"], "ok", "unique prefix"), (["-o"], "missing", "-o FILE"), (["-o", ""], "any", "empty argument")]
+    return shapes
+
+
+def cli_job(batch):
+    flex = build.get_flex("asan")
+    wd = H.mkscratch("c16c")
+    res = {"runs": 0, "problems": [], "ok": 0, "refused": 0}
+    env = dict(H.ENV)
+    env.update(SAN_ENV)
+    try:
+        for argv, expect, spec in batch:
+            for f in os.listdir(wd):
+                try:
+                    os.unlink(os.path.join(wd, f))
+                except OSError:
+                    pass
+            try:
+                p = subprocess.run([flex.exe] + argv, cwd=wd, env=env, input=SIMPLE, stdout=subprocess.PIPE, stderr=subprocess.PIPE, timeout=60)
+                rc, err, out = p.returncode, p.stderr.decode("latin-1"), p.stdout
+            except subprocess.TimeoutExpired:
+                res["problems"].append(("hang", "flex %s with the specification on standard input did not terminate" % " ".join(argv), argv))
+                continue
+            res["runs"] += 1
+            what = "flex %s (specification on standard input; table entry \"%s\")" % (" ".join(repr(a) if not a else a for a in argv), spec)
+            if rc < 0:
+                res["problems"].append(("signal", "%s died from signal %d" % (what, -rc), argv))
+                continue
+            if "ERROR: AddressSanitizer" in err or "runtime error:" in err:
+                res["problems"].append(("sanitizer", "%s: %s" % (what, [l for l in err.splitlines() if "Sanitizer" in l or "runtime error" in l][0][:200]), argv))
+                continue
+            if rc != 0 and not err.strip():
+                res["problems"].append(("silent-failure", "%s: exit status %d without a diagnostic" % (what, rc), argv))
+            if expect == "missing" and rc == 0:
+                res["problems"].append(("missing-argument-accepted", "%s: the required argument is missing, flex exited 0 (the option was dropped silently)" % what, argv))
+            if expect == "refused" and rc == 0:
+                res["problems"].append(("not-refused", "%s: exit status 0" % what, argv))
+            if expect == "ok" and rc != 0:
+                res["problems"].append(("refused", "%s: exit status %d: %s" % (what, rc, err.strip()[-150:]), argv))
+            if rc == 0 and expect != "info":
+                res["ok"] += 1
+                files = [f for f in os.listdir(wd) if f.startswith("lex.") and not f.endswith(".backup") and not f.endswith(".tables")] + [f for f in os.listdir(wd) if f == "out_x"]
+                data = out if b"yylex" in out else b"".join(open(os.path.join(wd, f), "rb").read() for f in files)
+                if b"yylex" not in data:
+                    res["problems"].append(("missing-output", "%s: exit status 0 but no scanner was written (files: %s)" % (what, sorted(os.listdir(wd))), argv))
+            elif rc != 0:
+                res["refused"] += 1
+        return res
+    finally:
+        shutil.rmtree(wd, ignore_errors=True)
+
+
 def child_fault_job(args):
     """A process of flex's filter chain fails: m4 missing, m4 exiting non-zero, m4 killed by a signal after reading its
     input, the writer killed by SIGXFSZ at a file-size limit."""
@@ -400,10 +489,11 @@ def run(tier):
             ck.violation("C16:%s:%s" % (kind, res["name"]), "limit specification %s: %s" % (res["name"], text), files={"in.l": j[1][:20000]})
     # (d) write faults on every output file
     wjobs = [("scanner", ["-o", "OUT"], "o.c"), ("header file", ["-o", "s.c", "--header-file=OUT"], "o.h"),
-             ("tables file", ["-o", "s.c", "--tables-file=OUT"], "o.tables"), ("scanner (stdout)", ["-t"], "none")]
+             ("tables file", ["-o", "s.c", "--tables-file=OUT"], "o.tables"), ("backup file", ["-o", "s.c", "--backup-file=OUT"], "o.backup"),
+             ("scanner (stdout)", ["-t"], "none")]
     nwf = 0
     strace_ok = True
-    for j, res in pmap(write_fault_job, wjobs[:3], check=ck):
+    for j, res in pmap(write_fault_job, wjobs[:4], check=ck):
         if "worker_exception" in res:
             ck.broken.append("worker failed: %s" % res["worker_exception"])
             continue
@@ -414,6 +504,19 @@ def run(tier):
             ck.notes.append(res.get("note", "strace not usable"))
         for kind, text in res["problems"]:
             ck.violation("C16:%s:%s" % (kind, res["which"]), text, case={"args": j[1]})
+    # (f) the command-line table in every argument shape, specification on standard input
+    shapes = cli_shapes()
+    ncli = 0
+    for j, res in pmap(cli_job, [shapes[i::16] for i in range(16)], check=ck):
+        if "worker_exception" in res:
+            ck.broken.append("worker failed: %s" % res["worker_exception"])
+            continue
+        runs += res["runs"]
+        ncli += res["runs"]
+        for kind, text, argv in res["problems"]:
+            ck.violation("C16:cli:%s:%s" % (kind, " ".join(argv)), text, case={"argv": argv})
+    ck.cov["command_line_shapes"] = ncli
+    ck.guard(ncli > 150, "command-line table hardly exercised: %d" % ncli)
     cf = ["m4-missing", "m4-exit3", "m4-killed", "m4-killed-early"] + ["fsize-%d" % n for n in (1, 100, 4096, 8192, 20000, 40000)]
     for j, res in pmap(child_fault_job, cf, check=ck):
         if "worker_exception" in res:
